@@ -21,6 +21,7 @@ RULES: Dict[str, str] = {
     'R-PERCALL-ESCAPE': 'sa.rules.effects:run_percall_escape',
     'R-COMPILE-COPIES': 'sa.rules.effects:run_compile_copies',
     'R-SORT-TOTAL': 'sa.rules.sorttotal:run',
+    'R-MANGLE-PROTOCOL': 'sa.rules.imports:run',
     'R-CONFIG-FORWARD': 'sa.rules.structure:run_config_forward',
     'R-OVERWRITTEN-STORE': 'sa.rules.structure:run_overwritten',
     'R-COPY-COVERS': 'sa.rules.structure:run_copy_covers',
@@ -176,6 +177,21 @@ PROPERTIES.update({
               'guard-precedes-push rule, pairing rule, override audit'),
 })
 
+PROPERTIES.update({
+    'C17': _p(['R-MANGLE-PROTOCOL', 'R-CONFIG-FORWARD', 'R-PREFIX-PROTOCOL'],
+              'the protocol every imported definition goes through: the mangled spelling keeps a leading underscore in front and prefixes the '
+              'rest, aliases replace instead of prefix, an enclosing import\'s mangle is applied on top; a definition\'s name, each template '
+              'parameter and every Symbol of (a copy of) its tree are mangled; renaming keeps a symbol\'s class and filter_out; every defining '
+              'statement kind, %declare and nested imports pass the current mangle, %ignore applies at top level only; the imported text is '
+              'loaded with the new mangle, pruned to the imported names, clashes with existing definitions are refused before merging; '
+              'redefinition needs %override and %override needs a definition; the nested builder inherits the outer configuration; '
+              'user names starting with "__" are refused.',
+              'that the grammar so obtained accepts the same language and builds the same trees as the textually inlined one, for all ways of '
+              'splitting a grammar (a semantic equality of two compilations); template instantiation (ApplyTemplates); %extend semantics.',
+              'producer/consumer protocol rules over the loader: format-string shape, path conditions, argument binding'),
+})
+
+
 NOT_APPLICABLE = {
     'C01': 'membership in L(G) for all grammars x inputs is functional correctness of a chart algorithm; no ownership, ordering, pairing or '
            'agreement fact in the source is a necessary condition specific to it (R-EQHASH/R-NODECACHE cover Earley data structures under C04/C20).',
@@ -183,8 +199,6 @@ NOT_APPLICABLE = {
            'operator of the tie-break would be a frozen fragment, not a decision of the property.',
     'C09': 'exact repetition counts for all 0 <= n <= m are arithmetic facts about small_factors and the (a, b) helper rules: a job for '
            'arithmetic reasoning (solver/proof families), not for program shape; its "no helper nodes visible" clause is decided under C03.',
-    'C17': 'equivalence with textual inlining over all ways of splitting a grammar is a semantic equality of two compilations; its one '
-           'structural clause (names keep their terminal/rule classification under mangling) is decided under C13.',
     'C19': 'a value-level round trip over all trees of a grammar class; the tree-matching grammar is a second compilation whose agreement with '
            'the first is semantic; the predicate the two share (is_discarded_terminal) is checked under C03.',
 }
